@@ -53,6 +53,14 @@ func c13Scenarios(tier string) []runner.Job {
 			return c
 		}(), false), pick(tier, 3, 4), 1),
 	}
+	// batch operations over several plain nodes at once (filters All() and All(A)): adding a relation with a target creates
+	// several new nodes/tables in one call, whose order must not depend on anything but the history
+	js = append(js, job(tr(func() *sim.Cfg {
+		c := sim.RelCfg("c13-rel-k4-batch-over-plain-nodes", 0, 4, 0, 8, fMove|fBExch|fRelX|fBSet|fBRem|fReg, 0)
+		c.BatchRefs = []int{0, 5, 6}
+		c.RegSpecs = []int{0, 5}
+		return c
+	}(), false), pick(tier, 4, 5), 2))
 	// replays that all load the same dump object: loading must not tie the dump to the world
 	{
 		c := sim.EntCfg("c13-ent-k6-shared-dump", 6, 1, fBNew|fBRem, 0)
